@@ -218,6 +218,40 @@ def main():
         if not all(sl.tree_ok(t, sep) for t in trees):
             continue
         cases.append(make_case(trees, sep, 'compact', rng, 'homographs', tail=rng.choice(TAILS)))
+    # extreme type profiles at one level: every word a hapax (all types occur once), no hapax at all (every type
+    # at least twice), a single type, exactly one hapax in first / last position of the frequency order
+    for k in range(80 if ck.thorough else 20):
+        fam = ['ascii', 'multi', 'ipa'][k % 3]
+        sep = SEPS[k % len(SEPS)]
+        pool = []
+        for _ in range(400):
+            w = sl.rand_tree(rng, sl.PHONES[fam], nwords=1)[0]
+            if w not in pool:
+                pool.append(w)
+            if len(pool) >= 16:
+                break
+        profile = k % 5
+        if profile == 0:
+            words = pool[:rng.randint(11, len(pool))] if len(pool) >= 11 else pool * 2
+        elif profile == 1:
+            words = [w for w in pool[:rng.randint(3, 6)] for _ in range(rng.randint(2, 4))]
+        elif profile == 2:
+            words = [pool[0]] * rng.randint(11, 15)
+        elif profile == 3:
+            words = [pool[0]] + [w for w in pool[1:5] for _ in range(3)]
+        else:
+            words = pool[:12] + [pool[3]]
+        while len(words) < 11:
+            words = words + words
+        rng.shuffle(words)
+        trees = []
+        while words:
+            n = rng.randint(1, 5)
+            trees.append(words[:n])
+            words = words[n:]
+        if not all(sl.tree_ok(t, sep) for t in trees):
+            continue
+        cases.append(make_case(trees, sep, 'compact', rng, 'type-profile-%d' % profile, tail=rng.choice(TAILS)))
     # every total number of word tokens in a range (hapaxes and twice-seen words included): the statistics
     # are ratios of counts, and float formulas that recover counts from probabilities go wrong only at some totals
     for W in list(range(11, 40)) + list(range(40, 261 if ck.thorough else 111)):
